@@ -7,6 +7,7 @@ documented format-error class; the returned array has the requested shape.
 """
 import ast
 
+from .core import kwarg
 from .core import (AnalysisError, dotted, norm, walk_local, const_int,
                    enclosing_stmt_map, stmts_of, block_always_raises,
                    raised_names, calls_in, call_name, PKG, canon_exc)
@@ -291,6 +292,7 @@ class FnFacts:
                     parent, branch = tr, "body"
             if isinstance(parent, ast.Try) and branch == "body":
                 caught_all = True
+                transparent = False
                 for eff in effects:
                     h = self._handler_for(parent, eff)
                     if h is None:
@@ -299,6 +301,11 @@ class FnFacts:
                     names = raised_names(h.body)
                     if not block_always_raises(h.body):
                         return False, "handler for %s does not re-raise" % eff
+                    if names and all(rn == "<reraise>" for rn in names):
+                        # clean-up and bare `raise`: the exception continues
+                        # to the enclosing handlers unchanged
+                        transparent = True
+                        break
                     for rn in names:
                         if rn == "<reraise>":
                             return False, "handler re-raises %s unchanged" % eff
@@ -311,6 +318,8 @@ class FnFacts:
                             if not all(b in allowed for b in built):
                                 return False, "handler converts %s to %s" \
                                     % (eff, rn)
+                if transparent:
+                    continue
                 if caught_all:
                     return True, "try/except -> %s" % ",".join(
                         sorted(a.rsplit(".", 1)[-1] for a in allowed))
@@ -345,8 +354,19 @@ class FnFacts:
             return None
         rets = [r.value for r in stmts_of(h.node)
                 if isinstance(r, ast.Return) and r.value is not None]
+        hdefs = local_defs(h.node)
+        flat = []
+        for r in rets:
+            if isinstance(r, ast.Name):
+                # `error = Cls(...)`; ...; `return error`
+                vals = [d.value for d in hdefs.get(r.id, [])
+                        if d.value is not None and d.kind == "assign"]
+                if vals and all(isinstance(v, ast.Call) for v in vals):
+                    flat.extend(vals)
+                    continue
+            flat.append(r)
         built = [self.scope.repo.exc_fullname(h.module, dotted(
-            r.func if isinstance(r, ast.Call) else r)) for r in rets]
+            r.func if isinstance(r, ast.Call) else r)) for r in flat]
         return built or None
 
     def _handler_for(self, trynode, eff):
@@ -408,6 +428,13 @@ class FnFacts:
             for d in self.defs.get(bufname, []):
                 if d.kind == "param":
                     continue
+                # buf = memoryview(buf): same bytes, same length
+                if isinstance(d.value, ast.Call) and \
+                        (call_name(d.value) or "") in ("memoryview", "bytes",
+                                                       "bytearray") and \
+                        len(d.value.args) == 1 and \
+                        norm(d.value.args[0]) == bufname:
+                    continue
                 dn = self.cfg.node_of(d.stmt)
                 if dn is not None and gn.id in self.dom[dn.id] and \
                         dn.id in self.dom[sn.id] and dn is not sn:
@@ -415,6 +442,26 @@ class FnFacts:
             if not rebound:
                 return g
         return None
+
+    def all_len_guards(self, site_node, bufname):
+        """Every non-assert raise-guard that dominates the site and measures
+        len(<bufname>)."""
+        st = self.stmt_of(site_node)
+        sn = self.cfg.node_of(st)
+        out = []
+        if sn is None:
+            return out
+        for g, atoms in self.guards:
+            if isinstance(g, ast.Assert):
+                continue
+            gn = self.cfg.node_of(g)
+            if gn is None or gn.id not in self.dom[sn.id] or gn is sn:
+                continue
+            if any(isinstance(c, ast.Call) and call_name(c) == "len" and
+                   c.args and norm(c.args[0]) == bufname
+                   for c in walk_local(g.test)):
+                out.append(g)
+        return out
 
     def helper_len_guard(self, call, depth=0):
         """`call` invokes a local helper every return of which is a name that
@@ -523,12 +570,48 @@ class FnFacts:
                     sides = (v.left, v.right)
                     if any(norm(s) == lo_txt for s in sides):
                         other = [s for s in sides if norm(s) != lo_txt]
-                        if other and isinstance(other[0], ast.BinOp) and \
-                                isinstance(other[0].op, ast.Mult):
-                            t = norm(other[0])
-                            if ".itemsize" in t or const_int(other[0].left) \
-                                    in (4, 8) or const_int(other[0].right) in (4, 8):
-                                return True
+                        if other and all(self._is_item_multiple(m_)
+                                         for m_ in self._table_values(
+                                             other[0])):
+                            return True
+        return False
+
+    def _table_values(self, e):
+        """[e], or - for a lookup `table[k]` in a local dict built once from
+        a literal or a comprehension - the value expressions of the table."""
+        if isinstance(e, ast.Subscript) and isinstance(e.value, ast.Name):
+            ds = [d for d in self.defs.get(e.value.id, [])
+                  if d.kind != "param"]
+            if len(ds) == 1 and ds[0].kind == "assign" and \
+                    ds[0].index is None:
+                v = ds[0].value
+                if isinstance(v, ast.DictComp):
+                    return [v.value]
+                if isinstance(v, ast.Dict) and v.values:
+                    return list(v.values)
+        # obj.method(...) where obj is a local instance of a class of this
+        # module: what the method returns
+        if isinstance(e, ast.Call) and isinstance(e.func, ast.Attribute) and \
+                isinstance(e.func.value, ast.Name):
+            ds = [d for d in self.defs.get(e.func.value.id, [])
+                  if d.kind != "param"]
+            if len(ds) == 1 and isinstance(ds[0].value, ast.Call) and \
+                    isinstance(ds[0].value.func, ast.Name):
+                cls = self.fn.module.classes.get(ds[0].value.func.id)
+                if cls is not None and e.func.attr in cls.methods:
+                    h = cls.methods[e.func.attr]
+                    rets = [r.value for r in stmts_of(h.node)
+                            if isinstance(r, ast.Return) and
+                            r.value is not None]
+                    if rets:
+                        return rets
+        return [e]
+
+    def _is_item_multiple(self, e):
+        if isinstance(e, ast.BinOp) and isinstance(e.op, ast.Mult):
+            t = norm(e)
+            return ".itemsize" in t or const_int(e.left) in (4, 8) or \
+                const_int(e.right) in (4, 8)
         return False
 
     # -- D-set --------------------------------------------------------
@@ -543,16 +626,35 @@ class FnFacts:
             if gn is None or sn is None or gn.id not in self.dom[sn.id] \
                     or gn is sn:
                 continue
+            if not atoms and isinstance(g, ast.If) and \
+                    isinstance(g.test, ast.BoolOp) and \
+                    isinstance(g.test.op, ast.And) and not g.orelse:
+                # `if a and b: raise`: on the fall-through path `not a or
+                # not b`; when each alternative pins `name` to a finite set
+                # the union is its value set
+                alts = []
+                for conj in g.test.values:
+                    sets_ = None
+                    for a in holds(conj, False):
+                        if norm(a.left) != name:
+                            continue
+                        if a.op == "==" and const_int(a.right) is not None:
+                            sets_ = {const_int(a.right)}
+                        elif a.op == "in":
+                            sets_ = self._finite_keys(a.right)
+                    alts.append(sets_)
+                if alts and all(x is not None for x in alts):
+                    u = set().union(*alts)
+                    base = u if base is None else base & u
             for a in atoms:
                 right = a.right
                 if isinstance(right, ast.Name) and \
                         right.id in self.fn.module.constants:
                     right = self.fn.module.constants[right.id]
-                if norm(a.left) == name and a.op == "in" and \
-                        isinstance(right, (ast.Tuple, ast.List, ast.Set)):
-                    vals = [const_int(e) for e in right.elts]
-                    if all(v is not None for v in vals):
-                        base = set(vals) if base is None else base & set(vals)
+                if norm(a.left) == name and a.op == "in":
+                    vals_ = self._finite_keys(right)
+                    if vals_ is not None:
+                        base = vals_ if base is None else base & vals_
                 elif norm(a.left) == name and const_int(a.right) is not None:
                     exit_refinements.append((a.op, const_int(a.right)))
         if base is None and depth < 6:
@@ -622,6 +724,56 @@ class FnFacts:
                         base = {x for x in base if _cmp(x, a.op, c)}
         return base
 
+    def _finite_keys(self, e, depth=0):
+        """Set of ints that `x in e` allows: a literal tuple / list / set, a
+        module constant holding one, or a local dict / set built once from a
+        literal or a comprehension over a literal."""
+        if isinstance(e, (ast.Tuple, ast.List, ast.Set)):
+            vals = [const_int(x) for x in e.elts]
+            return set(vals) if all(v is not None for v in vals) else None
+        if isinstance(e, ast.Dict):
+            vals = [const_int(k) if k is not None else None for k in e.keys]
+            return set(vals) if all(v is not None for v in vals) else None
+        if isinstance(e, (ast.DictComp, ast.SetComp, ast.ListComp)) and \
+                len(e.generators) == 1 and not e.generators[0].ifs:
+            g = e.generators[0]
+            key = e.key if isinstance(e, ast.DictComp) else e.elt
+            if isinstance(g.target, ast.Name) and isinstance(key, ast.Name) \
+                    and key.id == g.target.id:
+                return self._finite_keys(g.iter, depth + 1)
+            return None
+        if isinstance(e, ast.Call) and (call_name(e) or "") in (
+                "frozenset", "set", "tuple", "list", "sorted") and \
+                len(e.args) == 1:
+            return self._finite_keys(e.args[0], depth + 1)
+        if isinstance(e, ast.Name) and depth < 3:
+            v = self.fn.module.const(e.id)
+            if v is not None and e.id not in self.defs:
+                return self._finite_keys(v, depth + 1)
+            ds = [d for d in self.defs.get(e.id, []) if d.kind != "param"]
+            if len(ds) == 1 and ds[0].value is not None and \
+                    ds[0].kind == "assign" and ds[0].index is None:
+                return self._finite_keys(ds[0].value, depth + 1)
+        return None
+
+    def comp_binding(self, name_node):
+        """The comprehension generator that binds this Name node, if any."""
+        tab = getattr(self, "_comp_tab", None)
+        if tab is None:
+            tab = {}
+            for c in ast.walk(self.fn.node):
+                if isinstance(c, (ast.ListComp, ast.SetComp, ast.DictComp,
+                                  ast.GeneratorExp)):
+                    for g in c.generators:
+                        names = {t.id for t in ast.walk(g.target)
+                                 if isinstance(t, ast.Name)}
+                        for x in ast.walk(c):
+                            if isinstance(x, ast.Name) and x.id in names and \
+                                    isinstance(x.ctx, ast.Load):
+                                tab.setdefault(id(x), g)
+            self._comp_tab = tab
+        return tab.get(id(name_node))
+
     def valueset_expr(self, e, at_node, depth=0):
         """Finite value set of an integer expression built from constants
         and names with finite value sets, else None."""
@@ -629,6 +781,11 @@ class FnFacts:
         if c is not None:
             return {c}
         if isinstance(e, ast.Name):
+            g = self.comp_binding(e)
+            if g is not None:
+                # the variable of a comprehension over a literal
+                return self._finite_keys(g.iter) \
+                    if isinstance(g.target, ast.Name) else None
             return self.valueset(e.id, at_node, depth)
         if isinstance(e, ast.Call) and (call_name(e) or "") in (
                 "int", "np.uint64", "np.uint32", "abs") and len(e.args) == 1:
@@ -887,7 +1044,13 @@ def _classify(scope, ff, fn, node, t):
                 len(sl.args) == 1 and
                 isinstance(sl.args[0], (ast.GeneratorExp, ast.ListComp)) and
                 slice_like(sl.args[0].elt))
-            if not only_slices:
+            # indices built only from trusted quantities (loop counters over
+            # the chunk / block geometry): an out-of-range index would not be
+            # caused by the chunk bytes
+            idx_names = {n.id for n in ast.walk(sl) if isinstance(n, ast.Name)}
+            trusted_idx = bool(idx_names) and not (idx_names & t) and \
+                not scope.expr_tainted(fn, sl)
+            if not only_slices and not trusted_idx:
                 return ("index", ["IndexError"], None, norm(node)[:90])
         return None
     if isinstance(node, ast.BinOp) and isinstance(node.op, (ast.FloorDiv,
@@ -938,7 +1101,40 @@ def _reshape_discharge(scope, ff, node, operand, depth=0, bind=None):
     """The operand's *size* is fixed independently of the untrusted bytes, or
     the underlying buffer has a length guard."""
     fn = ff.fn
-    # an explicit format check of the element count / shape of the operand
+    # np.frombuffer(buf, dtype, count=N).reshape(shape): N elements by
+    # construction; fine when the shape's product is the same expression
+    src_ = operand
+    if isinstance(src_, ast.Name):
+        ds_ = [d for d in ff.defs.get(src_.id, []) if d.kind != "param"]
+        if len(ds_) == 1 and ds_[0].value is not None and \
+                ds_[0].index is None:
+            src_ = ds_[0].value
+    if isinstance(src_, ast.Call) and \
+            (scope.lib_name(fn, src_) or "") == "numpy.frombuffer" and \
+            kwarg(src_, "count") is not None and depth == 0 and \
+            isinstance(node, ast.Call):
+        fform = (scope.lib_name(fn, node) or "") == "numpy.reshape"
+        shp = None
+        if fform and len(node.args) >= 2:
+            shp = node.args[1]
+        elif not fform and len(node.args) == 1:
+            shp = node.args[0]
+        elts = None
+        if isinstance(shp, (ast.Tuple, ast.List)):
+            elts = list(shp.elts)
+        elif not fform and len(node.args) > 1:
+            elts = list(node.args)
+        if elts and not any(const_int(e) == -1 for e in elts):
+            from .intexpr import canon, NotInt
+            prod = elts[0]
+            for e in elts[1:]:
+                prod = ast.BinOp(left=prod, op=ast.Mult(), right=e)
+            try:
+                if canon(prod) == canon(kwarg(src_, "count")):
+                    return True, "D-size: frombuffer(count=N) reshaped to " \
+                        "a shape of N elements"
+            except NotInt:
+                pass
     if isinstance(operand, ast.Name) and depth == 0:
         # ... or of the object it was decoded from (img.size for
         # np.asarray(img)): the arithmetic inside the guard is not verified
@@ -997,6 +1193,13 @@ def _reshape_discharge(scope, ff, node, operand, depth=0, bind=None):
                         isinstance(c, ast.BinOp) and isinstance(c.op, ast.Mod)
                         for c in walk_local(g_.test))
                 g = ff.guard_for(node, e.args[0])
+                if g is not None and not is_exact(g) and \
+                        isinstance(e.args[0], ast.Name):
+                    # another dominating guard may be the exact one
+                    for g2 in ff.all_len_guards(node, e.args[0].id):
+                        if is_exact(g2):
+                            g = g2
+                            break
                 if g is None and isinstance(e.args[0], ast.Name) and \
                         e.args[0].id in fn.params and depth < 4:
                     # the buffer is a parameter: every caller fixes its size
@@ -1146,7 +1349,9 @@ def _set_discharge(ff, node, kind, operand):
         return True, "D-set per caller: " + ("; ".join(notes) or
                                              "all callers pass trusted values")
     if kind == "div":
-        s = ff.valueset(operand.id, node)
+        s = ff.valueset_expr(operand, node) \
+            if ff.comp_binding(operand) is not None \
+            else ff.valueset(operand.id, node)
         if s is None and (_via_record(ff, operand) or _param_via_record(
                 ff, operand.id)):
             return None, "divisor %s comes from a field of a record object" \
